@@ -80,7 +80,7 @@ func c07cli(c *h.Ctx) {
 		c.Eval(1)
 		got := strings.Join(strings.Fields(h.ReadFile(trace)), " ")
 		cas := map[string]interface{}{"argv": x.argv, "exit": res.Exit, "trace": got, "stderr": tail(stripANSI(string(res.Stderr)), 400)}
-		if crashed, how := res.Crashed(); crashed {
+		if crashed, how := res.CrashedNotByStatus(); crashed {
 			c.Violate("cli-crash/"+h.TopFrame(string(res.Stderr)), "taskctl died: "+how, cas)
 			return
 		}
@@ -190,7 +190,7 @@ func c07cli(c *h.Ctx) {
 			}
 		}
 		cas := map[string]interface{}{"argv": args, "exit": res.Exit, "trace": got, "want_trace": want, "stderr": tail(stripANSI(string(res.Stderr)), 400)}
-		if crashed, how := res.Crashed(); crashed {
+		if crashed, how := res.CrashedNotByStatus(); crashed {
 			c.Violate("cli-crash/"+h.TopFrame(string(res.Stderr)), "taskctl died: "+how, cas)
 			return
 		}
